@@ -116,6 +116,55 @@ class FrameTimesH(Harness):
         return dict(outputs=[], failures=failures)
 
 
+class TextGridH(Harness):
+    """write_textgrid -> read_textgrid on symbolic times (grid k/denom; the writer's float formatting forks through the solver) with the tier type left to
+    be inferred: every token comes back with its start and end within the print precision (a tier only degrades to a point tier when every segment prints
+    as zero-length).  cfg: R, kmax, denom, precision"""
+    functions = ["pydrobert.torch._parsing.write_textgrid", "pydrobert.torch._parsing.read_textgrid", "pydrobert.torch._textgrid.TextGrid (parser)"]
+
+    def _roundtrip(self, transcript):
+        import io
+        import pydrobert.torch._parsing as P
+        c = self.cfg
+        buf = io.StringIO()
+        P.write_textgrid(transcript, buf, precision=c["precision"])
+        text = buf.getvalue()
+        back, _, _ = P.read_textgrid(io.StringIO(text))
+        return text, back
+
+    def _judge(self, times, back, text):
+        c = self.cfg
+        half = 0.5 * 10 ** (-c["precision"]) + 1e-9
+        viol = [(f"read back {len(back)} tokens instead of {len(times)} from {text!r}", len(back) != len(times))]
+        for r, ((s, e), item) in enumerate(zip(times, back)):
+            viol.append((f"token {r} came back as {item[0]!r}", item[0] != f"t{r}"))
+            viol.append((f"token {r}: start {float(s)} came back as {item[1]} (precision {c['precision']})", abs(item[1] - float(s)) > half))
+            viol.append((f"token {r}: end {float(e)} came back as {item[2]} (precision {c['precision']})", abs(item[2] - float(e)) > half))
+        return viol
+
+    def symbolic(self, eng):
+        c = self.cfg
+        cells = []
+        for r in range(c["R"]):
+            s = eng.grid(f"s{r}", 0, c["kmax"], c["denom"])
+            e = eng.grid(f"e{r}", 0, c["kmax"], c["denom"])
+            eng.assume(s <= e)
+            if cells:
+                eng.assume(cells[-1][1] <= s)      # a transcript lists its tokens in time order, without overlap
+            cells.append((s, e))
+        transcript = [(f"t{r}", SymFloat(s), SymFloat(e)) for r, (s, e) in enumerate(cells)]
+        text, back = self._roundtrip(transcript)
+        # every time has been printed by now, i.e. is fixed on this path
+        times = [(eng.decide_real(s), eng.decide_real(e)) for s, e in cells]
+        return dict(outputs=[], viol=self._judge(times, back, text))
+
+    def concrete(self, vals):
+        c = self.cfg
+        times = [(vals[f"s{r}"] / c["denom"], vals[f"e{r}"] / c["denom"]) for r in range(c["R"])]
+        text, back = self._roundtrip([(f"t{r}", s, e) for r, (s, e) in enumerate(times)])
+        return dict(outputs=[], failures=[l for l, cnd in self._judge(times, back, text) if truth(cnd)])
+
+
 M_ = "checks.c11_frames"
 
 
@@ -125,4 +174,6 @@ def tasks(tier):
     for shift in ("10", "25/2", "1/8") if q else ("10", "25/2", "1/8", "1/16", "20", "1"):
         ts.append(task(PROP, M_, "FrameTimesH", shift=shift, R=1, horizon=3 if q else 5, nvalidate=1))
     ts.append(task(PROP, M_, "FrameTimesH", shift="10", R=2, horizon=2, nvalidate=1))
+    for prec, denom, kmax in ((0, 4, 6), (1, 8, 4)) if q else ((0, 4, 8), (1, 8, 6), (2, 16, 4), (3, 4, 6)):
+        ts.append(task(PROP, M_, "TextGridH", R=2, kmax=kmax, denom=denom, precision=prec, nvalidate=1))
     return ts
